@@ -359,6 +359,57 @@ pub fn in_fresh_thread<R: Send>(f: impl FnOnce() -> R + Send) -> R {
     }
 }
 
+/// A call made earlier on this thread whose reader *panics* part-way (after `give`
+/// bytes), the panic being caught as a worker pool or `catch_unwind` would: what the
+/// unwound call leaves behind must not reach the next call.  Returns whether it panicked.
+pub fn call_with_panicking_reader(data: Vec<u8>, give: usize, f: impl FnOnce(&mut crate::seams::SimReader)) -> bool {
+    use crate::seams::{ReadStep, SimReader};
+    let mut r = SimReader::new(data, vec![ReadStep::Give(give.max(1))])
+        .with_hook(2, Box::new(|| panic!("SIM-READER-PANIC: the reader of an earlier call panicked")));
+    let res = catch_unwind(AssertUnwindSafe(|| f(&mut r)));
+    LAST_PANIC.with(|p| *p.borrow_mut() = None);
+    res.is_err()
+}
+
+thread_local! {
+    /// what `in_fresh_thread_with_exit` runs while the thread's thread-locals are being
+    /// destroyed (a value registered before the library's own thread-locals are first
+    /// used is destroyed after them on the platforms at hand)
+    static AT_THREAD_EXIT: RefCell<Option<ExitGuard>> = const { RefCell::new(None) };
+}
+
+struct ExitGuard(Option<Box<dyn FnOnce()>>);
+
+impl Drop for ExitGuard {
+    fn drop(&mut self) {
+        if let Some(f) = self.0.take() {
+            f();
+        }
+    }
+}
+
+/// Like `in_fresh_thread`, and `at_exit` is called from the destructor of a thread-local
+/// of that thread while the thread exits - the place where a library's own per-thread
+/// state may already be gone.  Its result (None if it panicked or never ran) comes back too.
+pub fn in_fresh_thread_with_exit<R: Send, X: Send + 'static>(
+    f: impl FnOnce() -> R + Send,
+    at_exit: impl FnOnce() -> X + Send + 'static,
+) -> (R, Option<X>) {
+    let (tx, rx) = std::sync::mpsc::channel::<X>();
+    let r = in_fresh_thread(move || {
+        AT_THREAD_EXIT.with(|g| {
+            *g.borrow_mut() = Some(ExitGuard(Some(Box::new(move || {
+                // a panic in a thread-local destructor would abort the process
+                if let Ok(x) = catch_unwind(AssertUnwindSafe(at_exit)) {
+                    let _ = tx.send(x);
+                }
+            }))));
+        });
+        f()
+    });
+    (r, rx.try_recv().ok())
+}
+
 /// A second caller thread for one run: a persistent helper that executes the
 /// closures handed to it one at a time, while the calling thread waits.  Which of
 /// the two threads makes a given library call is decided by the scenario (a bit
